@@ -14,6 +14,10 @@ import (
 )
 
 func main() {
+	// helper processes: verifrun -aux <name> args...
+	if len(os.Args) > 2 && os.Args[1] == "-aux" {
+		os.Exit(fw.RunAux(os.Args[2], os.Args[3:]))
+	}
 	var (
 		worker = flag.Bool("worker", false, "run as batch child")
 		prop   = flag.String("prop", "", "property id")
